@@ -64,7 +64,11 @@ def oracle(case, R):
     ref = astm_rainflow.rainflow(x.tolist())
     ref_rf = np.array([r[:3] for r in ref], dtype=float).reshape(-1, 3)
     ref_os = np.array([r[3:] for r in ref], dtype=np.int64).reshape(-1, 2)
+    before = np.array(xin, copy=True)
     T = _tables(xin)
+    # the counters only read the caller's array (it is counted again right after, and by the other counter)
+    R.check(np.array_equal(np.asarray(xin), before), "input_array_modified",
+            f"pack={case.get('pack', 'array')} x={before.tolist()[:12]} after={np.asarray(xin).tolist()[:12]}")
     d = np.diff(x)
     alternating = bool(np.all(d != 0) and np.all(d[1:] * d[:-1] < 0))
     nfull = int((ref_rf[:, 2] == 1.0).sum())
